@@ -91,6 +91,8 @@ def w_series(job):
                         else:
                             if not isinstance(r, pd.Series):
                                 probs.append('returned %r instead of a Series' % (type(r).__name__,))
+                            elif r is s:
+                                probs.append('returned the input object itself instead of a copy')
                             else:
                                 if canon(r) != exp or not strings_or_missing(r):
                                     probs.append('returned %r, expected %r' % (r.tolist(), exp))
@@ -169,6 +171,8 @@ def w_frame(job):
                         if return_col:
                             if not isinstance(r, pd.Series):
                                 probs.append('returned %s instead of a Series' % type(r).__name__)
+                            elif r.index is not None and r is df.get('col', None):
+                                probs.append('returned the frame\'s own column object instead of a copy')
                             elif canon(r) != exp or not strings_or_missing(r):
                                 probs.append('returned column %r, expected %r' % (r.tolist(), exp))
                         else:
